@@ -395,7 +395,9 @@ func (in *interp) attribute(f *Field) {
 		dsl.Attribute(f.Name, args...)
 		return
 	}
-	args = append(args, in.typeArg(a))
+	if a.Type != nil {
+		args = append(args, in.typeArg(a))
+	} // else: the type is inherited from the type named by Reference / Extend
 	if a.Desc != "" {
 		args = append(args, a.Desc)
 	}
